@@ -218,7 +218,7 @@ class Executor:
                 if mname in seen:
                     continue
                 seen.add(mname)
-                if mname == '__init__' or f.node is self.func.node:
+                if mname == '__init__' or mname == self.func.name or f.node is self.func.node:
                     continue
                 vol |= direct_self_writes(f.node)
         return vol - self.opts.stable_fields
@@ -232,6 +232,10 @@ class Executor:
             if p == 'self':
                 continue
             st.locals[p] = name('@%s' % p) if not self.opts.param_symbols else name('@p%d' % i)
+            if p == 'env' and self.ctx is not None and self.func.name != '__init__' and 'env' in self.ctx.init_fields():
+                # element processes are spawned as env.process(self.run(env)) with the element's own
+                # environment (checked by the spawn-site rule): the parameter is self.env
+                st.locals[p] = ast.Attribute(value=name('self'), attr='env', ctx=ast.Load())
         a = fn.args
         if a.vararg:
             st.locals[a.vararg.arg] = name('@varargs')
